@@ -1,0 +1,37 @@
+//go:build verif
+
+package command
+
+// Contracts for the bbolt command-line tool (machine-checked by /verif/bbvc; see /verif/DESIGN.md §3).
+// This file contains comments only.
+
+// ---------------------------------------------------------------- C17: inspection commands open the database read-only
+// (effect obligations over the SSA: the Options literal passed to bolt.Open has ReadOnly stored as the constant true)
+
+//@ F [cli.check.readonly] props C17 C19 : openoptions command.checkFunc : ReadOnly == true
+//@ F [cli.buckets.readonly] props C17 : openoptions command.bucketsFunc : ReadOnly == true
+//@ F [cli.get.readonly] props C17 : openoptions command.getFunc : ReadOnly == true
+//@ F [cli.info.readonly] props C17 : openoptions command.infoFunc : ReadOnly == true
+//@ F [cli.inspect.readonly] props C17 : openoptions command.inspectFunc : ReadOnly == true
+//@ F [cli.keys.readonly] props C17 : openoptions command.keysFunc : ReadOnly == true
+//@ F [cli.pages.readonly] props C17 : openoptions command.pagesFunc : ReadOnly == true
+//@ F [cli.stats.readonly] props C17 : openoptions command.statsFunc : ReadOnly == true
+//@ F [cli.dump.nowrite] props C17 : noreach command.dumpFunc : bbolt.Open, os.OpenFile, os.Create, os.WriteFile, os.(*File).WriteAt, os.(*File).Write, os.(*File).Truncate, guts_cli.WritePage
+//@ F [cli.page.nowrite] props C17 : noreach command.pageFunc : bbolt.Open, os.OpenFile, os.Create, os.WriteFile, os.(*File).WriteAt, os.(*File).Write, os.(*File).Truncate, guts_cli.WritePage
+//@ F [cli.pageitem.nowrite] props C17 : noreach command.pageItemFunc : bbolt.Open, os.OpenFile, os.Create, os.WriteFile, os.(*File).WriteAt, os.(*File).Write, os.(*File).Truncate, guts_cli.WritePage
+
+// ---------------------------------------------------------------- C19: exit status of `bbolt check`
+
+//@ ghost var recvtotal int      -- number of values successfully received from channels so far
+
+//@ func checkFunc$1
+//@   returns (err)
+//@   props C19
+//@   ensures [corrupt] recvtotal > old(recvtotal) ==> err == guts_cli.ErrCorrupt
+//@   ensures [clean] recvtotal == old(recvtotal) ==> err == nil
+//@   callback ensures true
+//@   loop 0 invariant recvtotal >= old(recvtotal) && count >= 0 && (count > 0 <==> recvtotal > old(recvtotal))
+
+// ---------------------------------------------------------------- C15: compaction command
+
+//@ F [cli.compact.src.readonly] props C15 C17 : openoptions command.(*compactOptions).Run : ReadOnly == first
